@@ -362,12 +362,14 @@ pub fn run_script(cache: AnyCache, script: &Value) -> Result<Value, BoxedError> 
                 }, panic!("bad type {ty}"));
                 obs.push(json!({"o":"val","v":v}));
             }
-            "indirect" => {
+            "indirect" | "indirectnr" => {
                 let ext = ins["ext"].as_str().unwrap_or("");
-                let target = cache.raw_source().read(id, ext).ok().and_then(|c| {
+                let select = || cache.raw_source().read(id, ext).ok().and_then(|c| {
                     let j = content_json(c.as_ref());
                     j["to"].as_str().map(|s| s.to_string())
                 });
+                // "indirectnr": the selector file is read inside no_record, what it selects is loaded normally
+                let target = if op == "indirectnr" { cache.no_record(select) } else { select() };
                 match target {
                     None => {
                         if req {
@@ -397,7 +399,7 @@ pub fn run_script(cache: AnyCache, script: &Value) -> Result<Value, BoxedError> 
                 }
             }
             "fail" => return Err(Box::new(ScriptError)),
-            "panic" => panic!("injected script panic"),
+            "panic" => crate::assets::injected_panic("injected script panic"),
             other => panic!("unknown instruction {other}"),
         }
     }
